@@ -21,6 +21,7 @@ func runC05(c *Ctx) {
 	borrow(c, "O11", "C14", "O1", "addTaskIndex <-> deleteTaskIndex", "the victim filters drop a workload whose cached active-allocated count is 0: a count that drifts after an undone simulation hides a legal victim from the later actions of the cycle")
 	borrow(c, "O12", "C08", "O6", "given to the queue is in bytes", "a limit enforced a million times too low refuses every workload of the queue although capacity is free")
 	runC05FilterNodes(c)
+	borrow(c, "O17", "C03", "O4", "ShouldPipelineJob true path", "a gang whose minimum is met exactly by pods placed on idle resources must be bound: a non-strict comparison turns every such round into a pipelined one as soon as one sibling waits for releasing resources, and pods that fit on idle nodes stay unbound")
 	borrow(c, "O16", "C07", "O7", "", "a queue limit taken from another resource (the memory limit from the CPU limit) refuses workloads that fit every configured limit: they stay pending although the cluster and the queue have room")
 	borrow(c, "O14", "C08", "O13", "usage is accumulated for the allocated statuses", "a queue that is charged with its terminating pods looks fuller than it is: workloads that fit within its limit are refused and reclaimers within quota are turned away")
 	borrow(c, "O9", "C01", "O7", "BindPod failure -> unallocate", "resources of a pod whose bind failed stay consumed in the session and a later job that fits is left pending")
@@ -77,6 +78,33 @@ func runC05(c *Ctx) {
 			c.Check(more, "O1", "DOM", funcKey(ex)+": a job with tasks left is pushed back after a successful step", instrPos(in), "PushJob behind HasTasksToAllocate", "the re-queue of partly placed jobs is guarded differently")
 		}
 		c.Floor("O1", "DOM re-queues", np, 1)
+		// ---- O18: and ONLY the outcome of the commit and the presence of tasks left decide the re-queue: after a
+		// commit, an iteration ends without PushJob only when the commit failed or nothing is left to allocate. (A
+		// round that ended pipelined still re-queues the job: its remaining pods may fit on idle resources.)
+		commit := p.Func(pkgFw, "Statement", "Commit")
+		nc := 0
+		for _, in := range instrsIn(ex, isCallToFn(commit)) {
+			nc++
+			cv, _ := in.(ssa.Value)
+			h := loopHeaderOf(in.Block())
+			if h == nil || cv == nil {
+				c.Undec("O18", "MPT", funcKey(ex)+": commit outside the job loop", instrPos(in), "no loop")
+				continue
+			}
+			first := h.Instrs[0]
+			_, path, found := reachAvoiding([]cfgPos{afterInstr(in)}, func(x ssa.Instruction) bool { return x == first || isReturn(x) }, isCallToFn(push), func(from, to *ssa.BasicBlock) bool {
+				return !fx.edgeEstablishes(from, to, func(f Fact) bool {
+					if !f.Pol && isCallNamed(f.T, "HasTasksToAllocate") {
+						return true
+					}
+					// the commit's error is not nil
+					return !f.Pol && f.T.Op == "bin" && f.T.Name == "==" && len(f.T.Args) == 2 && f.T.Args[1].isNilConst() && f.T.Args[0].V == cv
+				})
+			})
+			c.Check(!found, "O18", "MPT", funcKey(ex)+": after a successful commit a job with tasks left is pushed back", instrPos(in), "the iteration ends without PushJob only behind a failed commit or HasTasksToAllocate == false",
+				"after a successful commit the job can be dropped from this cycle's order for another reason ("+pathStr(path)+"), e.g. because the round ended pipelined: its remaining pending pods are not attempted although they may fit on idle resources")
+		}
+		c.Floor("O18", "MPT commits in allocate", nc, 1)
 	}
 
 	// ---- O2: the node loop of a task
